@@ -90,7 +90,8 @@ def plan(ctx):
 
 def run(ctx):
     run_ref_mc(ctx)
-    run_plan(ctx, plan(ctx))
+    from plans import mirrored_wrapper_groups
+    run_plan(ctx, plan(ctx) + mirrored_wrapper_groups(ctx, ['gp']))
     return ctx.finish(
         rule='case = (configuration, algebra options, ordered key tuple of a, ordered key tuple of b); each compiles its own '
              'function, which is run on formal indeterminates; distinct by construction (deduplicated); non-trivial = the '
